@@ -43,6 +43,8 @@ structure Renewed (K : Nat) (s : St) (old : List Nat) (v : View) (t' : RState) (
 theorem replace_spec {K : Nat} {s : St} (hi : RInv K s) {v : View} (hw : v.wf K = true) (hc : v.core = true)
     {vo : View} {old : RState} (hold : GoodP (EffWf K s) vo old) (hwo : vo.wf K = true) (hco : vo.core = true) :
     Renewed K s (effsOf old) v (replace v old s).1 (replace v old s).2.1 := by
+  rw [replace_eq s (GoodP.locals_nil vo old hold)]
+  dsimp only
   have b := build_spec v s hi hw hc
   have d := dropAll_spec old.held (build v s).2
   have hheld := held_ok vo old hold hwo hco
@@ -52,10 +54,10 @@ theorem replace_spec {K : Nat} {s : St} (hi : RInv K s) {v : View} (hw : v.wf K 
     obtain ⟨z, hz, rfl⟩ := List.mem_map.1 hx
     exact (hheld z hz).1
   have hK : ∀ x ∈ old.held.map (·.1), K ≤ x := fun x hx => (hbound x (hids x hx)).1
-  have hz : (replace v old s).2.1.zombies = s.zombies ++ old.held := by
+  have hz : (dropAll (build v s).2 old.held).zombies = s.zombies ++ old.held := by
     show (dropAll (build v s).2 old.held).zombies = _
     rw [d.zombies, b.same.zombies]
-  have hnz : newZ s (replace v old s).2.1 = old.held := newZ_of_append hz
+  have hnz : newZ s (dropAll (build v s).2 old.held) = old.held := newZ_of_append hz
   have hdx := d.ext hK
   have hx1 : Ext K (fun x => x ∈ effsOf old) s (build v s).2 :=
     b.ext.mono (fun _ hf => hf.elim) (fun i hi' => (hbound i hi').1)
@@ -237,15 +239,21 @@ theorem rebuildAttr_spec {K : Nat} {s : St} (hi : RInv K s) : ∀ (a : Attr) (o 
   | .stat n v, .stat n' v', _, _ => ⟨RenewCore.refl hi, ⟨rfl, rfl⟩⟩
   | .dyn n x, .dyn e0 n' x' last, hg, hx => by
     have hs : sigOnly K x = true := by simpa [Attr.exprOk, sigOnly] using hx
+    have hr : s.res x = x := s.res_eq (by simp only [Attr.exprOk, Bool.and_eq_true] at hx; exact hx.2)
     have r := renew_attr_eff hi hs (e0 := e0) ⟨hg.2.2.1, hg.2.2.2.1⟩
+    simp only [rebuildAttr, hr]
     exact ⟨r.1, ⟨rfl, rfl, r.2 _ rfl⟩⟩
   | .cls n x, .cls e0 n' x' last, hg, hx => by
     have hs : sigOnly K x = true := by simpa [Attr.exprOk, sigOnly] using hx
+    have hr : s.res x = x := s.res_eq (by simp only [Attr.exprOk, Bool.and_eq_true] at hx; exact hx.2)
     have r := renew_attr_eff hi hs (e0 := e0) ⟨hg.2.2.1, hg.2.2.2.1⟩
+    simp only [rebuildAttr, hr]
     exact ⟨r.1, ⟨rfl, rfl, r.2 _ rfl⟩⟩
   | .sty n x, .sty e0 n' x' last, hg, hx => by
     have hs : sigOnly K x = true := by simpa [Attr.exprOk, sigOnly] using hx
+    have hr : s.res x = x := s.res_eq (by simp only [Attr.exprOk, Bool.and_eq_true] at hx; exact hx.2)
     have r := renew_attr_eff hi hs (e0 := e0) ⟨hg.2.2.1, hg.2.2.2.1⟩
+    simp only [rebuildAttr, hr]
     exact ⟨r.1, ⟨rfl, rfl, r.2 _ rfl⟩⟩
   | .stat _ _, .dyn _ _ _ _, h, _ => h.elim
   | .stat _ _, .cls _ _ _ _, h, _ => h.elim
@@ -370,6 +378,8 @@ theorem rebuild_spec {K : Nat} : ∀ (v : View) (old : RState) (s : St), RInv K 
     | either e c' a' b' left inner => exact replace_spec hi hw hc (vo := .either c a b) hg hw hc
     | _ => simp only [GoodP] at hg
   | «show» c a b _ _ => intro old s _ _ _ hc; simp [View.core] at hc
+  | scope sid d kid _ => intro old s _ _ _ hc; simp [View.core] at hc
+  | forRows sel lists row _ => intro old s _ _ _ hc; simp [View.core] at hc
   | forKeyed sel lists =>
     intro old s hi hg hw hc _
     cases old with
